@@ -91,9 +91,21 @@ impl Prop for P19 {
                     "quote5" => (vec!["-n", "1"], b"a b\nc '"),
                     _ /* toolong */ => (vec!["-s", "200"], b"a aaaaaaaaaaaaaaaaaaaaaaaaaaaaaaaaaaaaaaaaaaaaaaaaaaaaaaaaaaaaaaaaaaaaaaaaaaaaaaaaaaaaaaaaaaaaaaaaaaaaaaaaaaaaaaaaaaaaaaaaaaaaaaaaaaaaaaaaaaaaaaaaaaaaaaaaaaaaaaaaaaaaaaaaaaaaaaaaaaaaaaaaaaaaaaaaaaaaaaaaaaaaaaaaaaaaaaaaaaaaaaaaaaaaaaaaaaaaaaaaaaaaaaaaaaaaaaa b\n"),
                 };
-                let sv = stdin.to_vec();
+                let mut sv = stdin.to_vec();
+                let mut opts = opts;
+                if kind == "toolong2" || kind == "toolong3" {
+                    // an argument of exactly 128 KiB (one byte more than exec takes with its terminator): too long - status 1
+                    // from xargs itself, not 126 from a failed exec; also after a child that failed
+                    sv = if kind == "toolong3" { b"first\0".to_vec() } else { vec![] };
+                    sv.extend(std::iter::repeat(b'x').take(131072));
+                    sv.push(0);
+                    opts = vec!["-0", "-n", "1"];
+                }
                 let mut o = XOpts::new(&sv);
                 o.opts = opts.iter().map(|s| s.to_string()).collect();
+                if kind == "toolong3" {
+                    o.script = Some(vec![3]);
+                }
                 let r = run_xargs(&self.sb, &o);
                 if looks_like_panic(&r) {
                     return json!({"panic": true});
@@ -105,7 +117,7 @@ impl Prop for P19 {
 
     fn gen(&mut self, rng: &mut Rng, idx: usize, tier: &str) -> Value {
         if idx % 8 == 7 {
-            let k = *rng.pick(&["notfound", "notfound_norun", "notfound_quote", "notexec", "notexec_dir", "notexec_notdir", "notexec_loop", "badopt", "badopt2", "badopt3", "quote", "quote2", "quote3", "quote4", "quote5", "toolong"]);
+            let k = *rng.pick(&["notfound", "notfound_norun", "notfound_quote", "notexec", "notexec_dir", "notexec_notdir", "notexec_loop", "badopt", "badopt2", "badopt3", "quote", "quote2", "quote3", "quote4", "quote5", "toolong", "toolong2", "toolong3"]);
             return json!({"kind": k});
         }
         let len = if idx % 10 == 0 { rng.below(if tier == "thorough" { 200 } else { 60 }) } else { rng.below(9) };
